@@ -65,7 +65,7 @@ def bitfield_descs(tier):
     if tier == "quick":
         comps8 = comps8[::5]
         comps16 = comps16[::9]
-    kinds = ["sss", "srs", "xss", "ssx"]
+    kinds = ["sss", "srs", "xss", "ssx", "rss", "ssr", "sxs"]     # reserved / fixed bits first, in the middle, last
     n = 0
     for comp in comps8 + comps16:
         pat = kinds[n % len(kinds)]
@@ -154,6 +154,11 @@ def enum_descs(tier):
         enum("E4hi", 4, [tag("Y", 14), tag("Z", 15), tother("U")]),
         enum("E12hi", 12, [trange("R", 0x800, 0xfff), tother("U")]),
         enum("E8hi", 8, [tag("Y", 254), tag("Z", 255), tother("U")]),
+        # open enums of octet-aligned widths that are no native integer width (the catch-all arm must still reject >= 2^w)
+        enum("E24o", 24, [tag("A", 1), tag("B", 0x123456), tother("O")]),
+        enum("E40o", 40, [tag("A", 0), trange("R", 0x100, 0xffff, [tag("R1", 0x100)]), tother("O")]),
+        enum("E56c", 56, [tag("A", 1), tag("Z", 0xffffffffffffff)]),
+        enum("E48o", 48, [trange("R", 0, 0xfffffffffffe), tother("O")]),
         # ranges by how many of their values are named: all but one, all, first and last only
         enum("E8r1", 8, [trange("R", 10, 12, [tag("A", 10), tag("C", 12)]), tag("Z", 0)]),
         enum("E8r1o", 8, [trange("R", 1, 3, [tag("LOW", 1), tag("HIGH", 2)]), tother("U")]),
@@ -210,6 +215,9 @@ def array_descs(tier):
         out.append(desc("little", [packet("P", [count("x", w), array("x", 16)])], name="arr_cnt%d" % w))
         out.append(desc("little", [packet("P", [size("x", w), array("x", 24)])], name="arr_siz%d" % w))
         out.append(desc("little", [DS, packet("P", [count("x", w), array("x", "DS")])], name="arr_dscnt%d" % w))
+    # wide size fields in front of statically sized *struct* elements (capacity computed from the wire)
+    for w in (24, 64):
+        out.append(desc("little", [SS3, E8, packet("P", [size("x", w), array("x", "SS3")])], name="arr_ss3siz%d" % w))
     # padding
     out.append(desc("little", [packet("P", [size("x", 4), reserved(4), array("x", 16), padding(16), scalar("t", 8)])],
                     name="pad_siz16"))
@@ -309,6 +317,12 @@ def optional_descs(tier):
 
 def struct_descs(tier):
     out = []
+    # a derived struct as the type of a plain field, of an optional field and of a static array
+    out.append(desc("little", [DBASE, DCHILD, packet("P", [scalar("c", 1), reserved(7), typedef("d", "DChild", cond=("c", 1)), scalar("t", 8)])],
+                    name="opt_derived_struct"))
+    out.append(desc("little", [DBASE, DCHILD, packet("Parent", [size("_payload_", 8), payload(), scalar("z", 8)]),
+                               packet("Child", [scalar("c", 1), reserved(7), typedef("d", "DChild", cond=("c", 1))], parent="Parent")],
+                    name="opt_derived_struct_in_sized_payload"))
     out.append(desc("little", [SS, DS, packet("P", [typedef("a", "SS"), typedef("b", "DS")])], name="st_two"))
     out.append(desc("little", [SS, struct("M", [typedef("i", "SS"), scalar("k", 8)]), packet("P", [typedef("m", "M"), typedef("n", "M")])],
                     name="st_nested"))
